@@ -89,6 +89,15 @@ def histories(tier, rnd):
         hs.append((s1, ("lookalike", (0,)), s1))
     hs.append((("elaborate", (3,)), ("elaborate", (3,))))
     hs.append((("netlist", (3,)), ("to_proto", (2,))))
+    # a list call that fails on its last member, after the good members went through; then the good ones again
+    for how in ("elaborate", "to_proto"):
+        for kind in ("array", "unnamed"):
+            f = f"failing-list/{how}/{kind}"
+            for ms in ((0,), (1,), (2,), (0, 1), (1, 2), (0, 1, 2), (3,)):
+                hs.append(((f, ms),))
+                for s1 in singles:
+                    hs.append(((f, ms), s1))
+                hs.append(((f, ms), ("elaborate", ms)))
     n = 1500 if tier == "thorough" else 150
     for _ in range(n):
         L = rnd.randint(2, 4)
@@ -138,10 +147,31 @@ def lookalike():
         pass
 
 
+def bad_module(kind):
+    """a module whose elaboration fails late: in the array pass (after bundles were flattened), or for want of a name"""
+    import hdl21 as h
+    E = h.ExternalModule(name="HBadLeaf", port_list=[h.Inout(name="a")], desc="", domain="hh3")
+    m = h.Module(name="HBad") if kind == "array" else h.Module()
+    m.s = h.Signal(width=3)
+    if kind == "array":
+        m.arr = 2 * E()(a=m.s)        # 3 bits over 2 one-bit ports
+    else:
+        m.i = E()(a=m.s[0])
+    return m
+
+
 def do(action, objs):
     import hdl21 as h
     if action == "lookalike":
         return lookalike()
+    if action.startswith("failing-list/"):
+        # a list call whose LAST member fails (the good members before it have been through the passes by then)
+        _, how, kind = action.split("/")
+        try:
+            (h.elaborate if how == "elaborate" else h.to_proto)(list(objs) + [bad_module(kind)])
+        except Exception:
+            return
+        raise AssertionError("the bad module was accepted")
     arg = objs[0] if len(objs) == 1 else list(objs)
     if action == "elaborate":
         h.elaborate(arg)
@@ -176,6 +206,14 @@ def check_history(case, refs):
 
 
 def check_misc(case, refs):
+    try:
+        return _check_misc(case, refs)
+    except Exception as e:       # every step of this scenario is a valid use of the library
+        return (f"late-parent.raises.{type(e).__name__}", f"{case[0]}: {type(e).__name__}: {str(e)[-200:]}",
+                {"design": case[0], "history": "misc"})
+
+
+def _check_misc(case, refs):
     """an elaborated module can still be instantiated by new parents (which see its bundle-level ports) and refuses
     additions; id-keyed caches survive address reuse"""
     import gc
@@ -183,6 +221,10 @@ def check_misc(case, refs):
     desc, build, _ = case
     top, subs = build()
     Leaf, BLeaf, Mid = subs
+    # (a list call failing on its last member, and a repeat of the good members, must leave no trace either)
+    for how in ("elaborate", "to_proto"):
+        do(f"failing-list/{how}/array", [Leaf, BLeaf, Mid])
+        h.elaborate([BLeaf, Mid])
     h.elaborate(top)
     # new parent over elaborated children, using their original (bundle-level) interface
     P = h.Module(name="LateParent")
@@ -259,6 +301,17 @@ def run(ctx):
     ctx.verify(ck.engine(), [ck.VERIFY[1]])
     from contracts import c_io
     ctx.verify(c_io.engine(), c_io.VERIFY)
+    # the per-pass `done` sets only grow (proved for ElabPass above) because nothing outside ElabPass touches them
+    bad = ce.audit_cache_ownership()
+    ctx.obligations += 1
+    if bad:
+        from vcheck.core import Violation
+        ctx.violations.append(Violation("hdl21.elab:cache-ownership", f"class-level pass cache touched outside "
+                              f"ElabPass: {bad[:3]}", {"property": "C07", "obligation": "frame/cache-ownership",
+                                                       "offenders": bad}, False))
+    else:
+        ctx.discharged += 1
+        ctx.by_backend["ast-audit"] = ctx.by_backend.get("ast-audit", 0) + 1
     rnd = random.Random(ctx.seed)
     designs = list(dag_designs())
     refs = {}
